@@ -547,7 +547,7 @@ type realRes struct {
 }
 
 // one scenario with a real event loop; returns the obs line
-func realScenario(id int, rng *rand.Rand, probe string) string {
+func realScenario(id int, rng *rand.Rand, probe string, baseSocks map[int]bool) string {
 	start := time.Now()
 	since := func() time.Duration { return time.Since(start) }
 	network, addr := "tcp", "127.0.0.1:0"
@@ -581,7 +581,10 @@ func realScenario(id int, rng *rand.Rand, probe string) string {
 	if probe == "r2" {
 		prepDelay = 120 * time.Millisecond
 	}
+	var running int32
 	handler := func(ctx context.Context, c Connection) error {
+		atomic.AddInt32(&running, 1)
+		defer atomic.AddInt32(&running, -1)
 		rc := find(c)
 		r := c.Reader()
 		for r.Len() >= 4 {
@@ -862,7 +865,15 @@ func realScenario(id int, rng *rand.Rand, probe string) string {
 			longest = p.handler
 		}
 	}
-	time.Sleep(20 * time.Millisecond)
+	// clients stay until every handler that may still be running has answered
+	quiet := 0
+	for dl := time.Now().Add(3 * time.Second); time.Now().Before(dl) && quiet < 15; time.Sleep(2 * time.Millisecond) {
+		if atomic.LoadInt32(&running) == 0 {
+			quiet++
+		} else {
+			quiet = 0
+		}
+	}
 	close(stopClients)
 	wg.Wait()
 	dl := time.Now().Add(longest + 1500*time.Millisecond)
@@ -888,9 +899,11 @@ func realScenario(id int, rng *rand.Rand, probe string) string {
 	// per-connection checks
 	mu.Lock()
 	cbBad, closeTwice, busyClosed, spanning, idleLeft, lateAccept := 0, 0, 0, 0, 0, 0
+	badSeq := "-"
 	for _, c := range conns {
 		order := map[string]int{}
 		ncl := 0
+		bad0 := cbBad
 		for j, e := range c.ev {
 			if e.what == "closecb" {
 				ncl++
@@ -912,6 +925,13 @@ func realScenario(id int, rng *rand.Rand, probe string) string {
 			if cj, ok2 := order["connect"]; ok2 && dj < cj {
 				cbBad++
 			}
+		}
+		if cbBad > bad0 {
+			names := make([]string, len(c.ev))
+			for j, e := range c.ev {
+				names[j] = e.what
+			}
+			badSeq = strings.Join(names, ">")
 		}
 		if c.ev[0].at > t0 {
 			lateAccept++
@@ -935,18 +955,23 @@ func realScenario(id int, rng *rand.Rand, probe string) string {
 		}
 		quiet := p.kind == "idle" || ((p.kind == "send") && (p.connectAt+p.at > t1+20*time.Millisecond || (res[i].replyAt != 0 && res[i].replyAt < t0-20*time.Millisecond)))
 		if quiet && p.connectAt < t0-20*time.Millisecond && shErr == nil {
-			if res[i].eofAt == 0 || res[i].eofAt > t1+50*time.Millisecond {
+			if res[i].eofAt == 0 || res[i].eofAt > t1+time.Second {
 				idleLeft++
 			}
 		}
 	}
-	// busy handlers whose client kept the connection: the client must have got the reply
+	// a handler that ran over the whole Shutdown call and whose client kept the connection: the reply arrived
 	noReply := 0
-	for i, p := range plans {
-		if p.kind == "send" && res[i].sent == 1 && res[i].sentAt < t0-5*time.Millisecond && res[i].sentAt+p.handler > t1+5*time.Millisecond && res[i].replies == 0 {
-			noReply++
+	mu.Lock()
+	for _, c := range conns {
+		for j := range c.hstart {
+			if c.hstart[j] < t0-time.Millisecond && c.hend[j] > t1+time.Millisecond && c.hcli[j] < len(plans) &&
+				plans[c.hcli[j]].kind == "send" && res[c.hcli[j]].replies == 0 {
+				noReply++
+			}
 		}
 	}
+	mu.Unlock()
 	_ = busyAtRet
 	sh := "nil"
 	if shPanic != "" {
@@ -959,10 +984,16 @@ func realScenario(id int, rng *rand.Rand, probe string) string {
 		}
 	}
 	socks, _ := censusFds()
-	return fmt.Sprintf("obs id=%d probe=%s net=%s clients=%d accepted=%d onconnect=%v prep_ms=%d sh=%s dur_ms=%d deadline_ms=%d serve=%s ln_open=%d tracked_at_ret=%d stale_at_ret=%d alive_at_ret=%d open_at_ret=%d open_after_grace=%d late_accept=%d again=%s again_tracked=%d final_tracked=%d final_alive=%d final_open=%d cb_bad=%d close_twice=%d spanning=%d busy_closed=%d no_reply=%d idle_left=%d socks_left=%d",
+	left := 0
+	for _, fd := range socks {
+		if !baseSocks[fd] {
+			left++
+		}
+	}
+	return fmt.Sprintf("obs id=%d probe=%s net=%s clients=%d accepted=%d onconnect=%v prep_ms=%d sh=%s dur_ms=%d deadline_ms=%d serve=%s ln_open=%d tracked_at_ret=%d stale_at_ret=%d alive_at_ret=%d open_at_ret=%d open_after_grace=%d late_accept=%d again=%s again_tracked=%d final_tracked=%d final_alive=%d final_open=%d cb_bad=%d close_twice=%d spanning=%d busy_closed=%d no_reply=%d idle_left=%d socks_left=%d bad_seq=%s",
 		id, probeName(probe), network, len(plans), accepted, useOnConnect, prepDelay/time.Millisecond, sh, (t1-t0)/time.Millisecond, deadline/time.Millisecond,
 		serveRet, lnOpen, trackedAtRet, staleAtRet, aliveAtRet, openAtRet, openAfterGrace, lateAccept, again, againTracked,
-		finalTracked, finalAlive, finalOpen, cbBad, closeTwice, spanning, busyClosed, noReply, idleLeft, len(socks))
+		finalTracked, finalAlive, finalOpen, cbBad, closeTwice, spanning, busyClosed, noReply, idleLeft, left, badSeq)
 }
 
 func probeName(p string) string {
@@ -975,16 +1006,20 @@ func probeName(p string) string {
 func srvReal(seed int64, n int, probes string, opsOut string) int {
 	rng := rand.New(rand.NewSource(seed))
 	base, _ := censusFds()
+	baseSocks := map[int]bool{}
+	for _, fd := range base {
+		baseSocks[fd] = true
+	}
 	var lines []string
 	id := 0
 	for _, p := range strings.Split(probes, ",") {
 		if p != "" {
-			lines = append(lines, realScenario(id, rng, p))
+			lines = append(lines, realScenario(id, rng, p, baseSocks))
 			id++
 		}
 	}
 	for i := 0; i < n; i++ {
-		lines = append(lines, realScenario(id, rng, ""))
+		lines = append(lines, realScenario(id, rng, "", baseSocks))
 		id++
 	}
 	time.Sleep(20 * time.Millisecond)
